@@ -138,6 +138,32 @@ fn gen_b(seed: u64, n: usize) -> (Vec<BCase>, Vec<WCase>) {
             w.push(t.current());
         }
     }
+    // enumerated edge table (same in every run): writes that cannot fit, on every kind of target and through every wrapper -
+    // the calls whose outcome (panic vs. wrapped arithmetic) depends on overflow checks
+    use crate::bufmut::{WSpec, WKINDS};
+    for kind in 0..WKINDS {
+        for size in [0usize, 8, 40] {
+            for prefill in [0usize, 1, 5] {
+                let leaf = WSpec::Leaf { kind, size, prefill };
+                let specs = [
+                    leaf.clone(),
+                    WSpec::MutRef(Box::new(leaf.clone())),
+                    WSpec::Boxed(Box::new(leaf.clone())),
+                    WSpec::Limit(Box::new(leaf.clone()), usize::MAX),
+                    WSpec::Limit(Box::new(leaf.clone()), 3),
+                ];
+                for spec in specs {
+                    for bsel in [0u32, 1] {
+                        // op 2 with a % 61 == 9: put_bytes(remaining_mut() + 1) / put_bytes(usize::MAX)
+                        w.push(WCase { spec: spec.clone(), ops: vec![(2, 9, bsel, 0)] });
+                    }
+                    // put_slice / put_u64 of one byte more than the room (fixed targets: must panic; growable: appended)
+                    w.push(WCase { spec: spec.clone(), ops: vec![(1, 6, 0, 0)] });
+                    w.push(WCase { spec: spec.clone(), ops: vec![(0, 3, 0, 5)] });
+                }
+            }
+        }
+    }
     (b, w)
 }
 
@@ -148,6 +174,20 @@ pub fn features_name() -> &'static str {
         "default"
     } else {
         "no-default-features"
+    }
+}
+
+/// A panic that escapes the interpreter while a case is executed or observed (for instance because an earlier call left a
+/// handle in a state nothing can be read from) is an observable result of that configuration like any other: the case gets
+/// this marker as its digest instead of ending the process.
+const ESCAPED: u64 = 0xE5CA_9ED0_E5CA_9ED0;
+fn guarded<T>(f: impl FnOnce() -> T, on_escape: T) -> T {
+    match std::panic::catch_unwind(std::panic::AssertUnwindSafe(f)) {
+        Ok(v) => v,
+        Err(_) => {
+            crate::oalloc::leave(0);
+            on_escape
+        }
     }
 }
 
@@ -165,20 +205,20 @@ pub fn main_digest(args: &Args) -> i32 {
         if v.get("engine").and_then(|e| e.as_str()) == Some("bufmut") {
             let Some(c) = WCase::from_json(&v) else { return 2 };
             let mut st = WStats::default();
-            let d = run_wcase_dg(&c, &mut st, false).4;
+            let d = guarded(|| run_wcase_dg(&c, &mut st, false).4, ESCAPED);
             println!("{}", json!({"steps": [d.to_string()], "config": format!("{}/{}/{}", util::profile_name(), features_name(), parity)}));
             return 0;
         }
         if v.get("engine").and_then(|e| e.as_str()) == Some("buf") {
             let Some(c) = BCase::from_json(&v) else { return 2 };
             let mut st = BStats::default();
-            let d = run_bcase(&c, &mut st, false).dg;
-            println!("{}", json!({"steps": [read_digest(&c).to_string(), d.to_string()], "config": format!("{}/{}/{}", util::profile_name(), features_name(), parity)}));
+            let d = guarded(|| run_bcase(&c, &mut st, false).dg, ESCAPED);
+            println!("{}", json!({"steps": [guarded(|| read_digest(&c), ESCAPED).to_string(), d.to_string()], "config": format!("{}/{}/{}", util::profile_name(), features_name(), parity)}));
             return 0;
         }
         let Some((c, _)) = case_from_json(&v) else { return 2 };
         util::set_current_case(&case_json(&c, parity).to_string());
-        let (d, ended, _) = hist_digest(&c, parity);
+        let (d, ended, _) = guarded(|| hist_digest(&c, parity), (vec![ESCAPED], true, false));
         println!("{}", json!({"steps": d.iter().map(|x| x.to_string()).collect::<Vec<_>>(), "ended_by_oracle": ended, "config": format!("{}/{}/{}", util::profile_name(), features_name(), parity)}));
         return 0;
     }
@@ -189,7 +229,7 @@ pub fn main_digest(args: &Args) -> i32 {
     let mut panics_marked = 0u64;
     for c in &cases {
         util::set_current_case(&case_json(c, parity).to_string());
-        let (d, ended, nt) = hist_digest(c, parity);
+        let (d, ended, nt) = guarded(|| hist_digest(c, parity), (vec![ESCAPED], true, false));
         steps_total += d.len() as u64;
         panics_marked += ended as u64;
         hist_nt.push(nt as u8);
@@ -200,8 +240,8 @@ pub fn main_digest(args: &Args) -> i32 {
     let stride = args.u64("read-stride", 7).max(1);
     c10_entries(false, |idx, c1, c2| {
         if idx % stride == seed % stride {
-            reads.push(format!("{:016x}", read_digest(&c1)));
-            reads.push(format!("{:016x}", read_digest(&c2)));
+            reads.push(format!("{:016x}", guarded(|| read_digest(&c1), ESCAPED)));
+            reads.push(format!("{:016x}", guarded(|| read_digest(&c2), ESCAPED)));
         }
         true
     });
@@ -216,13 +256,13 @@ pub fn main_digest(args: &Args) -> i32 {
     let mut bst = BStats::default();
     for c in &bcases {
         util::set_current_case(&c.to_json().to_string());
-        bufd.push(format!("{:016x}", run_bcase(c, &mut bst, false).dg));
+        bufd.push(format!("{:016x}", guarded(|| run_bcase(c, &mut bst, false).dg, ESCAPED)));
     }
     let mut wd: Vec<String> = Vec::new();
     let mut wst = WStats::default();
     for c in &wcases {
         util::set_current_case(&c.to_json().to_string());
-        wd.push(format!("{:016x}", run_wcase_dg(c, &mut wst, false).4));
+        wd.push(format!("{:016x}", guarded(|| run_wcase_dg(c, &mut wst, false).4, ESCAPED)));
     }
     println!(
         "{}",
